@@ -286,18 +286,18 @@ Lemma filter_mid : forall (A : Type) (f : A -> bool) l1 x l2,
     filter f l1 = [] -> f x = true -> filter f l2 = [] -> filter f (l1 ++ x :: l2) = [x].
 Proof. intros A f l1 x l2 H1 Hx H2. rewrite filter_app. cbn [filter]. rewrite H1, Hx, H2. reflexivity. Qed.
 
-Lemma backup_earlier : forall P kw earlier toks s0,
+Lemma backup_earlier : forall P kw earlier toks more s0,
     Forall (fun ts => exists k, scan_stream P kw ts = ScNoName k) earlier ->
     (forall k, scan_stream P kw toks <> ScNoName k) ->
-    backup P kw (earlier ++ [toks]) s0 = (s0 + List.length earlier, Some (scan_stream P kw toks)).
+    backup P kw (earlier ++ toks :: more) s0 = (s0 + List.length earlier, Some (scan_stream P kw toks)).
 Proof.
-  induction earlier as [|ts r IH]; intros toks s0 He Hn; cbn [app backup List.length].
+  induction earlier as [|ts r IH]; intros toks more s0 He Hn; cbn [app backup List.length].
   - rewrite Nat.add_0_r. destruct (scan_stream P kw toks) eqn:E; try reflexivity. exfalso. eapply Hn; eauto.
-  - inversion He as [|? ? [k Hk] Hr]; subst. rewrite Hk. rewrite (IH toks (S s0) Hr Hn). f_equal. lia.
+  - inversion He as [|? ? [k Hk] Hr]; subst. rewrite Hk. rewrite (IH toks more (S s0) Hr Hn). f_equal. lia.
 Qed.
 
 Theorem supported_layouts :
-  forall P L dsrc caller args earlier gs1 g0 gs2 tail,
+  forall P L dsrc caller args earlier more gs1 g0 gs2 tail,
     Forall (fun ts => exists k, scan_stream P ["lambda"] ts = ScNoName k) earlier ->
     segs_ok true ["lambda"] (gs1 ++ g0 :: gs2) = true ->
     Forall (parse_ok P) (gs1 ++ g0 :: gs2) ->
@@ -305,15 +305,15 @@ Theorem supported_layouts :
     seg_matches P L caller args g0 = true ->
     Forall (fun g => seg_matches P L caller args g = false) gs1 ->
     Forall (fun g => seg_matches P L caller args g = false) gs2 ->
-    find P (earlier ++ [layout_toks (gs1 ++ g0 :: gs2) tail]) L true dsrc (Some caller) args
+    find P (earlier ++ layout_toks (gs1 ++ g0 :: gs2) tail :: more) L true dsrc (Some caller) args
     = Found (List.length earlier) (seg_start g0 (List.length (flat_map seg_toks gs1))).
 Proof.
-  intros P L dsrc caller args earlier gs1 g0 gs2 tail He Hok Hp Hend Hm H1 H2.
+  intros P L dsrc caller args earlier more gs1 g0 gs2 tail He Hok Hp Hend Hm H1 H2.
   set (gs := gs1 ++ g0 :: gs2) in *. set (toks := layout_toks gs tail).
   assert (Hscan : scan_stream P ["lambda"] toks = ScDone (cands_from P gs 0)).
   { exact (scan_chain P ["lambda"] toks eq_refl gs true [] tail [] None eq_refl Hok Hp Hend). }
   unfold find, find_gen. cbn [keywords].
-  rewrite (backup_earlier P ["lambda"] earlier toks 0 He) by (intros k; rewrite Hscan; discriminate).
+  rewrite (backup_earlier P ["lambda"] earlier toks more 0 He) by (intros k; rewrite Hscan; discriminate).
   rewrite Hscan. cbn [Nat.add].
   set (cs := cands_from P gs 0).
   assert (Hcs : cs = cands_from P gs1 0 ++ cand_of P g0 (List.length (flat_map seg_toks gs1))
@@ -341,13 +341,13 @@ Definition backs_up (P : parse_fn) (ts : list tok) : bool :=
   match scan_stream P ["lambda"] ts with ScNoName _ => true | _ => false end.
 
 Theorem supported_layouts_b :
-  forall P L dsrc caller args earlier gs1 g0 gs2 tail,
+  forall P L dsrc caller args earlier more gs1 g0 gs2 tail,
     forallb (backs_up P) earlier = true ->
     supported_layoutb P L caller args gs1 g0 gs2 tail = true ->
-    find P (earlier ++ [layout_toks (gs1 ++ g0 :: gs2) tail]) L true dsrc (Some caller) args
+    find P (earlier ++ layout_toks (gs1 ++ g0 :: gs2) tail :: more) L true dsrc (Some caller) args
     = Found (List.length earlier) (seg_start g0 (List.length (flat_map seg_toks gs1))).
 Proof.
-  intros P L dsrc caller args earlier gs1 g0 gs2 tail He H.
+  intros P L dsrc caller args earlier more gs1 g0 gs2 tail He H.
   unfold supported_layoutb in H. repeat (apply andb_true_iff in H; destruct H as [H ?]).
   match goal with Hn : forallb (fun g => negb _) _ = true |- _ => rename Hn into Hnon end.
   rewrite forallb_app in Hnon. apply andb_true_iff in Hnon. destruct Hnon as [Hn1 Hn2].
@@ -363,15 +363,15 @@ Qed.
 
 (* ------------------------------------------------------------------ the outcome on every segment layout *)
 Theorem segment_layout_outcome :
-  forall P L dsrc caller args earlier gs tail,
+  forall P L dsrc caller args earlier more gs tail,
     forallb (backs_up P) earlier = true ->
     segs_ok true ["lambda"] gs = true ->
     forallb (seg_parsed P) gs = true ->
     end_ok gs tail = true ->
-    find P (earlier ++ [layout_toks gs tail]) L true dsrc caller args
+    find P (earlier ++ layout_toks gs tail :: more) L true dsrc caller args
     = select true L caller args (List.length earlier) (cands_from P gs 0).
 Proof.
-  intros P L dsrc caller args earlier gs tail He Hok Hp Hend.
+  intros P L dsrc caller args earlier more gs tail He Hok Hp Hend.
   assert (Hp' : Forall (parse_ok P) gs).
   { apply Forall_forall. intros g Hg. rewrite forallb_forall in Hp. specialize (Hp g Hg).
     unfold parse_ok. unfold seg_parsed in Hp. destruct (P (ext_of g)); try discriminate. eauto. }
@@ -382,7 +382,7 @@ Proof.
   assert (Hscan : scan_stream P ["lambda"] toks = ScDone (cands_from P gs 0)).
   { exact (scan_chain P ["lambda"] toks eq_refl gs true [] tail [] None eq_refl Hok Hp' Hend). }
   unfold find, find_gen. cbn [keywords].
-  rewrite (backup_earlier P ["lambda"] earlier toks 0 He') by (intros k; rewrite Hscan; discriminate).
+  rewrite (backup_earlier P ["lambda"] earlier toks more 0 He') by (intros k; rewrite Hscan; discriminate).
   rewrite Hscan. reflexivity.
 Qed.
 
@@ -415,17 +415,17 @@ Qed.
 
 (* two segments with the callable's row, caller and parameter names: "Found multiple calls" *)
 Theorem ambiguous_layout_raises :
-  forall P L dsrc caller args earlier gs1 g1 gs2 g2 gs3 tail,
+  forall P L dsrc caller args earlier more gs1 g1 gs2 g2 gs3 tail,
     forallb (backs_up P) earlier = true ->
     segs_ok true ["lambda"] (gs1 ++ g1 :: gs2 ++ g2 :: gs3) = true ->
     forallb (seg_parsed P) (gs1 ++ g1 :: gs2 ++ g2 :: gs3) = true ->
     end_ok (gs1 ++ g1 :: gs2 ++ g2 :: gs3) tail = true ->
     seg_matches P L caller args g1 = true ->
     seg_matches P L caller args g2 = true ->
-    find P (earlier ++ [layout_toks (gs1 ++ g1 :: gs2 ++ g2 :: gs3) tail]) L true dsrc (Some caller) args
+    find P (earlier ++ layout_toks (gs1 ++ g1 :: gs2 ++ g2 :: gs3) tail :: more) L true dsrc (Some caller) args
     = Err EMultiple.
 Proof.
-  intros P L dsrc caller args earlier gs1 g1 gs2 g2 gs3 tail He Hok Hp Hend H1 H2.
+  intros P L dsrc caller args earlier more gs1 g1 gs2 g2 gs3 tail He Hok Hp Hend H1 H2.
   rewrite segment_layout_outcome by assumption. rewrite select_filters.
   set (gs := gs1 ++ g1 :: gs2 ++ g2 :: gs3) in *. set (cs := cands_from P gs 0).
   assert (Hcs : exists A B C c1 c2, cs = A ++ c1 :: B ++ c2 :: C
@@ -459,15 +459,15 @@ Qed.
    the first argument (`Select(x, lambda e: ...)`: its preceding NAME is x), is passed by keyword, or
    is wrapped in a helper call: "Found no lambda in arguments to <caller>" *)
 Theorem uncalled_layout_raises :
-  forall P L dsrc caller args earlier gs tail,
+  forall P L dsrc caller args earlier more gs tail,
     forallb (backs_up P) earlier = true ->
     segs_ok true ["lambda"] gs = true ->
     forallb (seg_parsed P) gs = true ->
     end_ok gs tail = true ->
     forallb (fun g => negb (Nat.eqb (g_lrow g) L && String.eqb (g_name g) caller)) gs = true ->
-    find P (earlier ++ [layout_toks gs tail]) L true dsrc (Some caller) args = Err ENoLambda.
+    find P (earlier ++ layout_toks gs tail :: more) L true dsrc (Some caller) args = Err ENoLambda.
 Proof.
-  intros P L dsrc caller args earlier gs tail He Hok Hp Hend Hno.
+  intros P L dsrc caller args earlier more gs tail He Hok Hp Hend Hno.
   rewrite segment_layout_outcome by assumption. unfold select.
   assert (Hnone : forall i, filter (key_is caller) (filter (on_row L) (cands_from P gs i)) = []).
   { intros i. rewrite filter_filter2. revert i. clear Hok Hp Hend. induction gs as [|g r IH]; intros i; [reflexivity|].
